@@ -123,6 +123,28 @@ theorem c2f_harm (shape : List Nat) (q : Nat → Nat → Rat) (f : Nat)
   field_simp
   ring
 
+/-- **Component selection.** For a vector-valued cell quantity the average on a face of axis `a` uses component `a` of
+its two neighbours, for a tensor-valued one the diagonal entry `(a, a)`; a scalar is used as it is. -/
+theorem c2f_component_selection (shape : List Nat) (arr : Nat → Rat) (f : Nat) :
+    cellToFaceQ shape .arithmetic .scalar arr f = (arr (conn shape f).1 + arr (conn shape f).2) / 2 ∧
+    cellToFaceQ shape .arithmetic .vector arr f =
+      (arr ((conn shape f).1 * shape.length + faceAxis shape f) +
+        arr ((conn shape f).2 * shape.length + faceAxis shape f)) / 2 ∧
+    cellToFaceQ shape .arithmetic .tensor arr f =
+      (arr (((conn shape f).1 * shape.length + faceAxis shape f) * shape.length + faceAxis shape f) +
+        arr (((conn shape f).2 * shape.length + faceAxis shape f) * shape.length + faceAxis shape f)) / 2 ∧
+    (∀ kind, cellToFaceQ shape .harmonic kind arr f =
+      hmean2 (selectComp shape.length kind arr (faceAxis shape f) (conn shape f).1)
+        (selectComp shape.length kind arr (faceAxis shape f) (conn shape f).2)) := by
+  refine ⟨?_, ?_, ?_, fun kind => rfl⟩ <;> simp only [cellToFaceQ, cellToFace, selectComp] <;> ring
+
+/-- … in particular the off-diagonal entries of a tensor field (and the other components of a vector field) are never
+read: two arrays that agree on the selected entries have the same face averages, for both modes. -/
+theorem c2f_ignores_other_components (shape : List Nat) (mode : AvgMode) (kind : QKind) (arr arr' : Nat → Rat) (f : Nat)
+    (h : ∀ c, selectComp shape.length kind arr (faceAxis shape f) c = selectComp shape.length kind arr' (faceAxis shape f) c) :
+    cellToFaceQ shape mode kind arr f = cellToFaceQ shape mode kind arr' f := by
+  cases mode <;> simp only [cellToFaceQ, cellToFace, h]
+
 theorem c2f_harm_zero (x y : Rat) (h : x = 0 ∨ y = 0) : hmean2 x y = 0 := by
   unfold hmean2; rw [if_pos h]
 
